@@ -48,10 +48,16 @@ class Cal:
         return None
 
     def hours(self, fid):
-        sh = self._inherited(fid, "shift")
-        if sh and sh in self.shifts:
-            return self.shifts[sh]["wh"]
-        return self._inherited(fid, "wh")
+        """the working hours a resource declares - through a shift reference or inline - or, if it declares none, those of
+        the closest enclosing group that does (finding F55: an inherited shift must not beat a resource's own hours)"""
+        while fid is not None:
+            r, par = self.res[fid]
+            if r.get("shift") and r["shift"] in self.shifts:
+                return self.shifts[r["shift"]]["wh"]
+            if r.get("wh"):
+                return r["wh"]
+            fid = par
+        return None
 
     def off(self, fid, t):
         for a, b in self.gl:
